@@ -14,13 +14,13 @@ T = {
  'C04': ('model_checking', 'E1', E1, 'The shim model (what the shim sent and was told) is part of the explored state; every outbound message of every transition is judged against it.', 'DESIGN.md 4/C04'),
  'C05': ('model_checking', 'E1', E1, 'Scheduler decisions are checked against the limits of the latest accepted configuration computed by an independent reference from the YAML; after every reload the limits in force are compared with that reference.', 'DESIGN.md 4/C05'),
  'C06': ('model_checking', 'E1', E1, 'All interleavings of placeholder allocation, real asks, replacement, timeout, node removal and confirmations up to the depth, on the real code, with step rules for swaps and timeouts.', 'DESIGN.md 4/C06'),
- 'C07': ('exploration', 'E3', E3 + ' (worlds built through the real API)', 'Exhaustive product of small queue-policy worlds; every PREEMPTED_BY_SCHEDULER victim is judged by an independent evaluator of the documented eligibility rules.', 'DESIGN.md 4/C07'),
- 'C08': ('exploration', 'E3', E3 + ' (worlds built through the real API)', 'Same worlds; guarantee and shortfall rules evaluated on every preemption decision.', 'DESIGN.md 4/C08'),
+ 'C07': ('model_checking', 'E1', 'exhaustive product of small preemption worlds executed on the real core (every world is an execution of the implementation) plus explicit-state breadth-first search of preemption scenarios with canonical-state deduplication', 'Exhaustive product of small queue-policy worlds; every PREEMPTED_BY_SCHEDULER victim is judged by an independent evaluator of the documented eligibility rules.', 'DESIGN.md 4/C07'),
+ 'C08': ('model_checking', 'E1', 'exhaustive product of small preemption worlds executed on the real core plus explicit-state breadth-first search of preemption scenarios incl. quota changes, canonical-state deduplication', 'Same worlds; guarantee and shortfall rules evaluated on every preemption decision.', 'DESIGN.md 4/C08'),
  'C09': ('model_checking', 'E1', E1, 'The four reservation views are compared in every reachable state with reservation delay 0.', 'DESIGN.md 4/C09'),
  'C10': ('model_checking', 'E1', E1, 'Every state-log pair and every application update message of every explored transition is checked against the documented relation, with timers as explicit ops.', 'DESIGN.md 4/C10'),
  'C11': ('model_checking', 'E1', E1, 'Every first allocation of an untracked application is checked against running+allocating counts of the pre-state on every level.', 'DESIGN.md 4/C11'),
- 'C12': ('fault_enumeration', 'E1', 'crash-point enumeration on top of the explicit-state search: every explored state x every replay order, recovered on a fresh real core and compared', 'Every state of the bounded BFS is a crash point; the shim model is replayed into a fresh core in every order and the ledgers are compared.', 'DESIGN.md 4/C12'),
- 'C13': ('fault_enumeration', 'E1', 'exhaustive malformed-message catalogue injected into every state of the explicit-state search', 'Every message of a full-product catalogue is injected into every explored state under recover() and a watchdog; ledger snapshot compared.', 'DESIGN.md 4/C13'),
+ 'C12': ('model_checking', 'E1', 'crash-point enumeration on top of the explicit-state search: every explored state x every replay order, recovered on a fresh real core and compared', 'Every state of the bounded BFS is a crash point; the shim model is replayed into a fresh core in every order and the ledgers are compared.', 'DESIGN.md 4/C12'),
+ 'C13': ('model_checking', 'E1', 'exhaustive malformed-message catalogue injected into every state of the explicit-state search', 'Every message of a full-product catalogue is injected into every explored state under recover() and a watchdog; ledger snapshot compared.', 'DESIGN.md 4/C13'),
  'C14': ('model_checking', 'E2', E2, 'All lock-granularity interleavings of 2-3 real goroutine bodies up to a preemption bound; deadlock, panic and final-state invariants.', 'DESIGN.md 4/C14'),
  'C15': ('exploration', 'E3', E3, 'Complete enumeration of small configuration families; accepted documents are checked against an independent transcription of the hierarchy rules and loaded into a new and a running scheduler.', 'DESIGN.md 4/C15'),
  'C16': ('model_checking', 'E1', E1, 'Every state of the bounded BFS x every configuration of the set: rejected reloads change nothing, accepted reloads preserve running state and equal a fresh load (differential oracle).', 'DESIGN.md 4/C16'),
